@@ -184,7 +184,10 @@ def schedule_strategy(draw):
             order = [draw(st.integers(0, nQ - 1)) for _ in range(draw(st.integers(2, nQ + 3)))]
         else:
             order = sorted(range(nQ), key=lambda i: -len(queries[i]))      # long queries first: shorter ones reuse their scratch
-        schedules.append({"order": order, "n_jobs": draw(st.sampled_from(jobs)), "chunk": draw(st.sampled_from([0, 0, 1, 2]))})
+        nj = draw(st.sampled_from(jobs))
+        schedules.append({"order": order, "n_jobs": nj, "chunk": draw(st.sampled_from([0, 0, 1, 2])),
+                          # a genuine data race shows only in some interleavings: multi-thread schedules are repeated (more in thorough)
+                          "repeat": 1 if nj == 1 else draw(st.sampled_from([1, 2] if MAXT <= 4 else [2, 5, 10]))})
     return {"queries": queries, "targets": targets, "rc": draw(st.booleans()), "n_target_bins": draw(st.sampled_from([None, None, 100])),
             "schedules": schedules}
 
